@@ -106,7 +106,9 @@ def lean_sources_of(modules):
         for f in files:
             if f.endswith(".lean"):
                 out.append(os.path.join(root, f))
-    out.append(os.path.join(LEAN_DIR, "Driver.lean"))
+    for f in os.listdir(os.path.join(LEAN_DIR, "Drivers")):
+        if f.endswith(".lean"):
+            out.append(os.path.join(LEAN_DIR, "Drivers", f))
     return out
 
 
@@ -133,7 +135,7 @@ def regenerate(mod, report):
 def build_and_audit(mod, report):
     """lake build the property module(s), grep for forbidden constructs, #print axioms on every property theorem."""
     t0 = time.time()
-    rc, out = leanproc.run_lake(["build"] + list(mod.LEAN_MODULES) + ["driver"])
+    rc, out = leanproc.run_lake(["build"] + list(mod.LEAN_MODULES) + ["drv_" + mod.ID.lower()])
     report["build_s"] = round(time.time() - t0, 1)
     names = theorem_names(mod.PROPS_FILE)
     report["theorems"] = names
